@@ -1,7 +1,8 @@
 """C20 — threads run once, run their exit callbacks, managed threads all get joined."""
 import os, re
-from lib.core import Case
+from lib.core import Case, GenError, write_if_changed, LEAN
 from lib import cbuild, detsched, core
+from gen import threads_gen, cfun
 
 ID = "C20"
 LEAN_MODULES = ["AwsVerif.Props.C20"]
@@ -20,24 +21,88 @@ ASSUMPTIONS = ["sequentially consistent interleavings that switch only at pthrea
                "c20_no_deadlock: WFProgress programs (each slot launched from one place; a manual thread is joined at most once and "
                "only by the thread that launches it - a pthread_join cycle among user threads deadlocks in plain pthreads too); "
                "deadlock freedom = some thread can always step; termination of the busy join-all loop additionally needs a fair scheduler",
-               "thread-local storage (tl_wrapper) and real stacks are not modelled; thread functions terminate"]
+               "thread-local storage (tl_wrapper) and real stacks are not modelled; thread functions terminate",
+               "now + timeout < 2^64 (the deadline of aws_thread_join_all_managed does not wrap)",
+               "library re-initialisation with an empty pending-join list: /repo drops wrappers parked there (never joined, "
+               "count stuck); the model counts them (`dropped`, reported by the driver) and the generator keeps that window closed"]
 RULE = ("programs of 1..6 thread slots (manual/managed, nested launches, 0..4 at-exit registrations, joins, count reads, "
         "join-all racing completions, timeouts with virtual time, injected pthread_create failures, launches with a "
         "cpu_id (valid / not honourable: first create fails with EINVAL and the library retries unpinned / retry fails too), "
         "named threads, pthread_create as two schedule points (create / return to the creator), aws_thread_call_once on "
-        "shared flags whose callbacks register at-exit callbacks, repeated aws_common_library_init) x schedules "
+        "shared flags whose callbacks register at-exit callbacks, repeated aws_common_library_init, launches in which "
+        "pthread_attr_init / setstacksize / getstacksize fails (launch fails) or pthread_attr_setaffinity_np fails (retried "
+        "unpinned), managed-join timeouts at the type limits (2^31-1 .. 2^63-1, 2^63, 2^63+1, 0xC000.., 2^64-1-now) with the "
+        "virtual clock started near 0 / at 2^40 / 2^62 / above 2^63, aws_common_library_clean_up + init cycles whose "
+        "internal join-all runs into the timeout while a managed thread sleeps) x schedules "
         "(choice lists from the PRNG, spurious wake-ups, and every schedule of small programs up to a preemption bound, "
         "enumerated on the model); non-trivial = at least two threads of which one is managed")
 NOT_PROVED = []
 
-ACT = re.compile(r"^([LPQRJDACWTYSOINX])(\d*)(n?)$")   # trailing n on a launch: the thread gets a name
-LAUNCH = "LPQR"   # L: cpu_id -1; P: cpu 0; Q: cpu 1000, first pthread_create fails EINVAL, retried unpinned; R: retry fails too
+ACT = re.compile(r"^([LPQREFGHJDACWTYSOINX])(\d*)(n?)$")   # trailing n on a launch: the thread gets a name
+# L: cpu_id -1; P: cpu 0; Q: cpu 1000, first pthread_create fails EINVAL, retried unpinned; R: retry fails too;
+# E / F / G: pthread_attr_init / pthread_attr_setstacksize / pthread_attr_getstacksize fails, the launch fails;
+# H: cpu 0, pthread_attr_setaffinity_np fails, retried unpinned
+LAUNCH = "LPQREFGH"
+U64 = 1 << 64
+# managed-join timeouts at the limits of the types involved (uint64_t timeout, int64_t wait duration, uint32/int32)
+BIG_TIMEOUTS = [(1 << 31) - 1, 1 << 31, 1 << 32, (1 << 63) - 1, 1 << 63, (1 << 63) + 1, 0xC000000000000000, U64 - 1]
+CLOCKS = [1, 999, 1 << 40, 1 << 62, (1 << 63) + 12345, 0xE000000000000000]
+MARGIN = 10 ** 9   # more virtual time than any generated run consumes (sleeps, clock ticks)
+
+
+def regen(ctx):
+    """timeout arithmetic of aws_thread_join_all_managed / aws_condition_variable_wait_for, translated from /repo"""
+    try:
+        text = threads_gen.generate(cbuild.REPO, cbuild.config_include())
+    except cfun.GenError as e:
+        raise GenError(str(e))
+    write_if_changed(os.path.join(LEAN, "AwsVerif", "Gen", "ThreadsTime.lean"), text)
+
+
+def legal_timeout(rng, start):
+    """a timeout from BIG_TIMEOUTS that keeps now + timeout below 2^64 for the whole run"""
+    now = start or 10 ** 9
+    ok = [t for t in BIG_TIMEOUTS if now + t + MARGIN < U64]
+    ok.append(U64 - 1 - now - MARGIN)
+    return rng.choice(ok)
+
+
+def gen_timed_cleanup(rng):
+    """aws_common_library_clean_up whose internal join-all runs into the configured timeout while a managed thread is
+    still asleep; the library is initialised again, the sleeper is then joined by an untimed join-all.  Every managed
+    thread is either a sleeper or cannot block, so nothing hands itself over between the clean-up's last list swap
+    and the re-initialisation (that window loses the parked thread on /repo: see DESIGN observations)."""
+    to = rng.choice([120, 600, 3000])
+    n = rng.randint(1, 4)
+    sleepers = {1} | {k for k in range(2, n + 1) if rng.random() < 0.3}
+    ops, launches = [], []
+    for k in range(1, n + 1):
+        acts = [f"A{c}" for c in rng.sample(range(1, 10), rng.choice([0, 1, 2]))]
+        acts += ["Y"] * rng.choice([0, 1]) + ["N"] * rng.choice([0, 0, 1]) + ["C"] * rng.choice([0, 0, 1])
+        rng.shuffle(acts)
+        if k in sleepers:
+            acts = [f"S{to * rng.choice([20, 50])}"] + acts
+        ops.append((f"slot {k} M " + " ".join(acts)).rstrip())
+        launches.append(f"L{k}" + ("n" if rng.random() < 0.3 else ""))
+    main = launches + ["C"] * rng.choice([0, 1])
+    main.insert(rng.randint(0, len(main)), f"T{to}")
+    main += ["X", "T0"] + ["C"] * rng.choice([0, 1]) + ["W"] + ["C"] * rng.choice([0, 1])
+    ops.append("main " + " ".join(main))
+    ops.append("tick 50")
+    if rng.random() < 0.3:
+        ops.append(f"clock {rng.choice(CLOCKS[:5])}")
+    return ops, {"n": n, "managed": n, "time": True, "timed_cleanup": True}
 
 
 # ------------------------------------------------------------------ generator
 def gen_program(rng, nmax=6, allow_time=True):
+    if allow_time and rng.random() < 0.05:
+        return gen_timed_cleanup(rng)
     n = rng.randint(1, nmax) if rng.random() < 0.8 else rng.randint(1, 3)
     use_time = allow_time and rng.random() < 0.2
+    start = rng.choice(CLOCKS) if rng.random() < 0.3 else 0
+    # a "practically forever" timeout: never expires, join-all must behave as without one
+    forever = allow_time and not use_time and rng.random() < 0.15
     parent = {}
     managed = {}
     children = {k: [] for k in range(0, n + 1)}
@@ -59,7 +124,7 @@ def gen_program(rng, nmax=6, allow_time=True):
         acts = []
         ncb = rng.choice([0, 0, 1, 1, 2, 3, 4]) if k else (1 if rng.random() < 0.1 else 0)
         cbs = rng.sample(range(1, 10), ncb)
-        lop = {c: ("L" if rng.random() < 0.68 else rng.choice("PQQQR")) for c in children[k]}
+        lop = {c: ("L" if rng.random() < 0.62 else rng.choice("PQQQRHHEFG")) for c in children[k]}
         ltok = {c: f"{lop[c]}{c}" + ("n" if rng.random() < 0.35 else "") for c in children[k]}
         items = [f"A{c}" for c in cbs] + [ltok[c] for c in children[k]]
         items += ["Y"] * rng.choice([0, 0, 1, 1, 2, 3])
@@ -102,13 +167,16 @@ def gen_program(rng, nmax=6, allow_time=True):
             if use_time and rng.random() < 0.7:
                 extra.append(f"T{rng.choice([1, 120, 600, 3000])}")
                 timed = True
+            if forever:
+                extra.append(f"T{legal_timeout(rng, start)}")
             for _ in range(rng.choice([0, 0, 1, 2])):
                 extra.append("W")
             for e in extra:
                 items.insert(rng.randint(0, len(items)), e)
-            if timed or any(i.startswith("T") for i in items):
+            if timed or (any(i.startswith("T") for i in items) and not (forever and rng.random() < 0.5)):
                 items.append("T0")
-            # the final join-all is issued either directly or through aws_common_library_clean_up (no timeout then)
+            # the final join-all is issued either directly or through aws_common_library_clean_up (no timeout that
+            # can expire then)
             items.append("X" if (not timed and not use_time and rng.random() < 0.3) else "W")
             if rng.random() < 0.3 and items[-1] == "W":
                 items.append("C")
@@ -129,6 +197,12 @@ def gen_program(rng, nmax=6, allow_time=True):
         tags["fail"] = True
     if use_time:
         ops.append("tick 50")
+    elif forever and rng.random() < 0.3:
+        ops.append("tick 7")
+    if start and (use_time or forever):
+        ops.append(f"clock {start}")
+        tags["clock"] = True
+    tags["forever"] = forever
     return ops, tags
 
 
@@ -192,6 +266,15 @@ SMALL = [
     ("self-join-managed-mix", ["slot 1 U J1 L2 A1", "slot 2 M J2", "main J1 L1 J1 W"], (1, 90, 400), (2, 110, 6000)),
     # shut-down through aws_common_library_clean_up (which must join all managed threads), thread names
     ("lib-cleanup", ["slot 1 M N", "slot 2 M Y", "main L1n L2 N X"], (2, 80, 400), (3, 100, 6000)),
+    # a pthread_attr_* step of the launch fails: nothing may stay counted (managed) or allocated
+    ("attr-fails", ["slot 1 M", "slot 2 M A1", "slot 3 U", "main E1 C L2 G3 J3 W C"], (2, 70, 300), (3, 90, 5000)),
+    ("attr-fails-stack-affinity", ["slot 1 M F2n A1", "slot 2 M", "slot 3 M", "main L1 H3n W C"], (2, 70, 300), (3, 90, 5000)),
+    # managed-join timeouts at the type limits: never expire, join-all behaves as without a timeout
+    ("timeout-2^63", ["slot 1 M Y", "slot 2 M", f"main T{1 << 63} L1 L2 W C"], (2, 70, 300), (3, 90, 5000)),
+    ("timeout-max-legal", ["slot 1 M Y", "slot 2 M", f"main L1 L2 T{U64 - 1 - 1000} W C", "clock 1000"], (2, 70, 300), (3, 90, 5000)),
+    ("timeout-c000-ticks", ["slot 1 M S400", "slot 2 M", f"main T{0xC000000000000000} L1 L2 W C", "tick 50", "clock 1"], (1, 100, 300), (2, 120, 4000)),
+    # the clean-up's internal join-all times out while a managed thread sleeps; the library is initialised again
+    ("cleanup-timeout", ["slot 1 M S20000 A1", "slot 2 M", "main L1 L2 T600 X T0 W C", "tick 50"], (1, 110, 300), (2, 130, 4000)),
     ("create-window-3", ["slot 1 M L2n", "slot 2 M L3", "slot 3 M", "main L1n W"], (1, 100, 400), (2, 120, 8000)),
 ]
 
@@ -352,28 +435,71 @@ def oracle(case, lines):
                 errs.append(f"join on slot {k} returned before its function and at-exit callbacks completed")
             if len(cbs.get(k, [])) != len(regs.get(k, [])):
                 errs.append(f"join on slot {k} returned with at-exit callbacks outstanding")
-    # join-all
-    begin = None
-    timed = any(a.startswith("T") and a != "T0" for a in prog["main"])
+    # join-all.  Main's join-all calls in program order with the timeout configured at that point (only main sets it)
+    calls, cur = [], 0
+    for a in prog["main"]:
+        if a.startswith("T") and a[1:].isdigit():
+            cur = int(a[1:])
+        elif a in ("W", "X"):
+            calls.append((a, cur))
+    any_timed = any(a.startswith("T") and a != "T0" for a in prog["main"])
+    begin, ncall, void = None, 0, None
+
+    def kvs(l):
+        return dict(x.split("=", 1) for x in l.split()[2:] if "=" in x)
+
+    def finished_check(i, what):
+        for k, li in launch_line.items():
+            if managed.get(k) and launch_ok[k] and li < begin[0]:
+                fin = dones.get(k, [])
+                if not fin or fin[0] > i:
+                    errs.append(f"{what} but managed slot {k} (launched before the call) had not finished")
+                elif any(ci > i for ci, _, _ in cbs.get(k, [])) or len(cbs.get(k, [])) != len(regs.get(k, [])):
+                    errs.append(f"{what} before the at-exit callbacks of managed slot {k}")
+
+    def timeout_check(l, what):
+        t_end = int(kvs(l).get("t", "0"))
+        by, to, t0 = begin[1], begin[2], begin[3]
+        if by != 0:
+            if not any_timed:
+                errs.append(f"{what} although no timeout was configured")
+        elif to == 0:
+            errs.append(f"{what} although no timeout was configured")
+        elif t_end - t0 < to:
+            errs.append(f"{what} after {t_end - t0} ns of virtual time, before the configured timeout of {to} ns had passed")
+
     for i, l in enumerate(P):
         if l.startswith("P joinall begin"):
-            begin = i
+            by = int(l.split()[3][1:])
+            to = 0
+            if by == 0:
+                if ncall < len(calls):
+                    to = calls[ncall][1]
+                ncall += 1
+            begin = (i, by, to, int(kvs(l).get("t", "0")))
+            void = None
         elif l.startswith("P joinall rc="):
             if begin is None:
                 errs.append("joinall return without begin")
                 continue
-            if l.endswith("rc=OK"):
-                for k, li in launch_line.items():
-                    if managed.get(k) and launch_ok[k] and li < begin:
-                        fin = dones.get(k, [])
-                        if not fin or fin[0] > i:
-                            errs.append(f"join_all_managed returned OK but managed slot {k} (launched before the call) had not finished")
-                        elif any(ci > i for ci, _, _ in cbs.get(k, [])) or len(cbs.get(k, [])) != len(regs.get(k, [])):
-                            errs.append(f"join_all_managed returned OK before the at-exit callbacks of managed slot {k}")
-            elif not timed:
-                errs.append("join_all_managed failed although no timeout was configured")
+            rc = kvs(l)["rc"]
+            if rc == "OK":
+                finished_check(i, "join_all_managed returned OK")
+            elif rc == "VOID":
+                void = (i, l, begin)   # aws_common_library_clean_up: judged by the managed count printed next
+                continue
+            else:
+                timeout_check(l, "join_all_managed failed")
             begin = None
-        elif l.startswith("P count"):
+        elif l.startswith("P count") and void is not None and l.split()[2] == f"s{void[2][1]}":
+            vi, vl, begin = void
+            void = None
+            if int(l.split()[3]) == 0:
+                finished_check(vi, "aws_common_library_clean_up + init left a managed count of 0")
+            else:
+                timeout_check(vl, f"aws_common_library_clean_up left {l.split()[3]} managed thread(s) unjoined")
+            begin = None
+        if l.startswith("P count"):
             nmax = sum(1 for v in managed.values() if v)
             if int(l.split()[3]) > nmax:
                 errs.append(f"managed thread count {l.split()[3]} exceeds the number of managed threads {nmax}")
@@ -406,12 +532,14 @@ def nontrivial(case):
 
 def distribution(cases, c_out):
     d = {"threads": {}, "managed_slots": 0, "manual_slots": 0, "atexit_regs": 0, "joinall_calls": 0, "timeouts_cfg": 0,
-         "create_fail": 0, "current_name": 0, "lib_cleanup": 0, "call_once": 0, "once_flags_with_atexit": 0, "lib_reinit": 0, "named_launch": 0, "pinned_launch": 0, "pinned_retry": 0, "pinned_retry_fails": 0, "joinall_ok": 0, "joinall_err": 0, "sync_events": 0, "spurious": 0, "waits": 0, "exhaustive_scheds": 0}
+         "create_fail": 0, "current_name": 0, "lib_cleanup": 0, "call_once": 0, "once_flags_with_atexit": 0, "lib_reinit": 0, "named_launch": 0, "pinned_launch": 0, "pinned_retry": 0, "pinned_retry_fails": 0, "joinall_ok": 0, "joinall_err": 0, "cleanup_joinall": 0, "timed_cleanup": 0, "attr_fault_launch": 0, "attr_fault_retry": 0, "timeout_ge_2_63": 0, "timeout_ge_2_31": 0, "clock_start_set": 0, "sync_events": 0, "spurious": 0, "waits": 0, "exhaustive_scheds": 0}
     for i, c in enumerate(cases):
         n = c.tags.get("n", 0)
         d["threads"][str(n)] = d["threads"].get(str(n), 0) + 1
         if c.tags.get("exhaustive"):
             d["exhaustive_scheds"] += 1
+        if c.tags.get("timed_cleanup"):
+            d["timed_cleanup"] += 1
         for o in c.ops:
             t = o.split()
             if t[0] == "slot":
@@ -428,6 +556,12 @@ def distribution(cases, c_out):
                 d["pinned_launch"] += sum(1 for a in t[1:] if a[0] in "PQR" and a[1:].rstrip("n").isdigit())
                 d["pinned_retry"] += sum(1 for a in t[1:] if a[0] in "QR" and a[1:].rstrip("n").isdigit())
                 d["pinned_retry_fails"] += sum(1 for a in t[1:] if a[0] == "R" and a[1:].rstrip("n").isdigit())
+                d["attr_fault_launch"] += sum(1 for a in t[1:] if a[0] in "EFG" and a[1:].rstrip("n").isdigit())
+                d["attr_fault_retry"] += sum(1 for a in t[1:] if a[0] == "H" and a[1:].rstrip("n").isdigit())
+                d["timeout_ge_2_63"] += sum(1 for a in t[1:] if a[0] == "T" and a[1:].isdigit() and int(a[1:]) >= 1 << 63)
+                d["timeout_ge_2_31"] += sum(1 for a in t[1:] if a[0] == "T" and a[1:].isdigit() and int(a[1:]) >= (1 << 31) - 1)
+            if t[0] == "clock":
+                d["clock_start_set"] += 1
             if t[0] == "once" and len(t) > 2:
                 d["once_flags_with_atexit"] += 1
             if t[0] == "fail":
@@ -439,10 +573,12 @@ def distribution(cases, c_out):
                     d["spurious"] += 1
                 elif " wait " in l:
                     d["waits"] += 1
-            elif l == "P joinall rc=OK":
+            elif l.startswith("P joinall rc=OK"):
                 d["joinall_ok"] += 1
-            elif l == "P joinall rc=ERR":
+            elif l.startswith("P joinall rc=ERR"):
                 d["joinall_err"] += 1
+            elif l.startswith("P joinall rc=VOID"):
+                d["cleanup_joinall"] += 1
     return d
 
 
